@@ -99,6 +99,13 @@ fn keyword_shape(seed: u64, n: usize, len: usize, shared_type: bool, tag: &str) 
         if i % 11 == 0 {
             probes.push(format!("{}{}z{}", k, kws[rng.below(n)], kws[rng.below(n)]));
         }
+        if i % 4 == 0 && len >= 2 {
+            // spliced word: head of this keyword, tail of another one (a non-keyword unless it
+            // happens to be one; the reference decides)
+            let other = &kws[rng.below(n)];
+            let cut = rng.range(1, len - 1);
+            probes.push(format!("{}{}", &k[..cut], &other[cut..]));
+        }
     }
     for input in &probes {
         st.count("probes");
@@ -295,7 +302,7 @@ pub fn c17(tier: Tier) -> i32 {
         }
     }
     let mut report = Report::new(
-        "fixed entry price: every construction that crosses 2^16 states needs >= 65537 states through builders that are quadratic or worse. Quick: (K) one mode of 8300 distinct random 8-letter keywords with distinct token types (66401 states before and after minimization, i.e. more than 2^16 partition groups) probed with every keyword (one token, own type, span 0..8), keywords minus their last letter and non-keywords (nothing), and concatenations; a{N}b for N in {1500, 3000, 6000} and a 500-keyword mode below the boundary; the minimizer's (before, after) pair of the large mode also goes through the C03 pair checker at symbol level. Thorough adds 16400x4-letter and 4100x16-letter keyword modes, an 8300-keyword mode with one shared token type, and a{66000}b with inputs a^N b, a^(N-1) b, a^(N+1) b, a^(N-65536) b. A mode that is rejected with an error is accepted by the statement and counted. The hook reports the state counts actually reached.",
+        "fixed entry price: every construction that crosses 2^16 states needs >= 65537 states through builders that are quadratic or worse. Quick: (K) one mode of 8300 distinct random 8-letter keywords with distinct token types (66401 states before and after minimization, i.e. more than 2^16 partition groups) probed with every keyword (one token, own type, span 0..8), keywords minus their last letter, keywords with another last letter and words spliced from the head of one keyword and the tail of another (nothing), and concatenations; a{N}b for N in {1500, 3000, 6000} and a 500-keyword mode below the boundary; the minimizer's (before, after) pair of the large mode also goes through the C03 pair checker at symbol level. Thorough adds 16400x4-letter and 4100x16-letter keyword modes, an 8300-keyword mode with one shared token type, and a{66000}b with inputs a^N b, a^(N-1) b, a^(N+1) b, a^(N-65536) b. A mode that is rejected with an error is accepted by the statement and counted. The hook reports the state counts actually reached.",
     )
     .floor("modes_with_more_than_65535_states_before_minimization", 1)
     .floor("probes", 1_000)
